@@ -1133,7 +1133,7 @@ func (fg *FnGen) evalCall(x *CCall, env *CEnv) *Val {
 		panic(unsupported("arity mismatch calling " + id.Name))
 	}
 	if sf.Body != nil && !sf.Rec {
-		inner := &CEnv{fg: fg, st: env.st, old: env.old, vars: map[string]*Val{}, noLocals: true, calleePkg: sf.PkgPath, depth: env.depth}
+		inner := &CEnv{fg: fg, st: env.st, old: env.old, vars: map[string]*Val{}, noLocals: true, calleePkg: sf.PkgPath, depth: env.depth, bound: env.bound}
 		if sf.PkgPath == "" {
 			inner.calleePkg = "<spec>"
 		}
